@@ -72,7 +72,7 @@ theorem flatten_get (ls : List (List Nat)) (i d : Nat) (hi : i < ls.length) (hd 
 /-! ### list-level well-formedness of a predicted structure -/
 
 /-- the clauses of C03 on the lists of an `Out` -/
-structure WfOut (m : Nat) (o : Out) : Prop where
+structure WfOut (o : Out) : Prop where
   xlen : o.xsup.length = o.rows.length + 1
   slen : o.supno.length = o.n
   ulen : o.ucols.length = o.n
@@ -82,13 +82,13 @@ structure WfOut (m : Nat) (o : Out) : Prop where
   sup : ∀ s < o.rows.length, ∀ c < o.xsup[s + 1]! - o.xsup[s]!, o.supno[o.xsup[s]! + c]! = s
   rlen : ∀ s < o.rows.length, o.xsup[s + 1]! - o.xsup[s]! ≤ (o.rows[s]!).length
   lead : ∀ s < o.rows.length, ∀ c < o.xsup[s + 1]! - o.xsup[s]!, (o.rows[s]!)[c]! = o.xsup[s]! + c
-  below : ∀ s < o.rows.length, ∀ r ∈ (o.rows[s]!).drop (o.xsup[s + 1]! - o.xsup[s]!), o.xsup[s + 1]! - 1 < r ∧ r < m
+  below : ∀ s < o.rows.length, ∀ r ∈ (o.rows[s]!).drop (o.xsup[s + 1]! - o.xsup[s]!), o.xsup[s + 1]! - 1 < r
   rnodup : ∀ s < o.rows.length, ((o.rows[s]!).drop (o.xsup[s + 1]! - o.xsup[s]!)).Nodup
   uabove : ∀ j < o.n, ∀ r ∈ o.ucols[j]!, r < o.xsup[o.supno[j]!]!
   unodup : ∀ j < o.n, (o.ucols[j]!).Nodup
 
 namespace WfOut
-variable {m : Nat} {o : Out} (h : WfOut m o)
+variable {o : Out} (h : WfOut o)
 include h
 
 theorem ns_pos (hn : o.n ≠ 0) : 0 < o.rows.length := by
@@ -169,7 +169,7 @@ theorem xl_n (o : Out) : (xlsubL o)[o.n]! = (loffOf o)[o.rows.length]! := by
   simp
 
 namespace WfOut
-variable {m : Nat} {o : Out} (h : WfOut m o)
+variable {o : Out} (h : WfOut o)
 include h
 
 theorem xl_at (s j : Nat) (hs : s < o.rows.length) (h1 : o.xsup[s]! ≤ j) (h2 : j < o.xsup[s + 1]!) :
@@ -202,7 +202,7 @@ theorem range_map_self (l : List Nat) : (List.range l.length).map (fun d => l[d]
     rw [List.getElem!_eq_getElem?_getD, List.getElem?_eq_getElem h2]; rfl
 
 namespace WfOut
-variable {m : Nat} {o : Out} (h : WfOut m o)
+variable {o : Out} (h : WfOut o)
 include h
 
 theorem xl_first (s : Nat) (hs : s < o.rows.length) : (xlsubL o)[o.xsup[s]!]! = (loffOf o)[s]! := by
@@ -217,7 +217,7 @@ theorem xl_second (s : Nat) (hs : s < o.rows.length) : (xlsubL o)[o.xsup[s]! + 1
   · have : o.xsup[s]! + 1 = o.xsup[s + 1]! := by omega
     rw [this, h.xl_bound s hs]
 
-theorem rowsOf_toFac (s : Nat) (hs : s < o.rows.length) : rowsOf (toFac m o).L s = o.rows[s]! := by
+theorem rowsOf_toFac (m s : Nat) (hs : s < o.rows.length) : rowsOf (toFac m o).L s = o.rows[s]! := by
   unfold rowsOf
   simp only [toFac_xsup, toFac_xlsub, toFac_lsub, List.getElem!_toArray]
   rw [h.xl_first s hs, h.xl_second s hs, WfOut.loff_succ s hs, Nat.add_sub_cancel_left]
@@ -226,7 +226,7 @@ theorem rowsOf_toFac (s : Nat) (hs : s < o.rows.length) : rowsOf (toFac m o).L s
   intro d hd
   exact flatten_get o.rows s d hs (List.mem_range.mp hd)
 
-theorem ucolRows_toFac (j : Nat) (hj : j < o.n) : ucolRows (toFac m o) j = o.ucols[j]! := by
+theorem ucolRows_toFac (m j : Nat) (hj : j < o.n) : ucolRows (toFac m o) j = o.ucols[j]! := by
   have hj' : j < o.ucols.length := by rw [h.ulen]; exact hj
   unfold ucolRows
   simp only [toFac_colptr, toFac_rowind, List.getElem!_toArray]
@@ -259,9 +259,10 @@ theorem widths_get (o : Out) (j : Nat) (hj : j < o.n) : (widthsL o)[j]! = (o.row
     rw [List.getElem!_eq_getElem?_getD, List.getElem?_range hj]; rfl
   rw [this]
 
-/-- **packing.**  A predicted structure whose lists satisfy the clauses of C03 passes `wfb` once packed
-into SCformat / NCformat arrays. -/
-theorem toFac_wfb (m : Nat) (o : Out) (hn : o.n ≠ 0) (h : WfOut m o) : wfb (toFac m o) = true := by
+/-- **packing.**  A predicted structure whose lists satisfy the clauses of C03 and whose rows are `< m`
+passes `wfb` once packed into SCformat / NCformat arrays. -/
+theorem toFac_wfb (m : Nat) (o : Out) (hn : o.n ≠ 0) (h : WfOut o) (hm : ∀ s < o.rows.length, ∀ r ∈ o.rows[s]!, r < m) :
+    wfb (toFac m o) = true := by
   have hpos := h.ns_pos hn
   have hns : o.rows.length - 1 + 1 = o.rows.length := by omega
   simp only [wfb, Bool.or_eq_true, Bool.and_eq_true, decide_eq_true_eq, List.all_eq_true, List.mem_range]
@@ -304,8 +305,8 @@ theorem toFac_wfb (m : Nat) (o : Out) (hn : o.n ≠ 0) (h : WfOut m o) : wfb (to
     intro s hs
     have hlt := h.xlt s hs
     have hw : o.xsup[s + 1]! - 1 - o.xsup[s]! + 1 = o.xsup[s + 1]! - o.xsup[s]! := by omega
-    rw [hw, h.rowsOf_toFac s hs]
-    refine ⟨⟨⟨⟨⟨h.rlen s hs, ?_⟩, h.lead s hs⟩, h.below s hs⟩, nodup_complete _ (h.rnodup s hs)⟩, ?_⟩
+    rw [hw, h.rowsOf_toFac m s hs]
+    refine ⟨⟨⟨⟨⟨h.rlen s hs, ?_⟩, h.lead s hs⟩, fun r hrm => ⟨h.below s hs r hrm, hm s hs r (List.mem_of_mem_drop hrm)⟩⟩, nodup_complete _ (h.rnodup s hs)⟩, ?_⟩
     · intro k hk
       rw [h.xl_second s hs, h.xl_at s (o.xsup[s]! + 1 + k) hs (by omega) (by omega), if_neg (by omega)]
     · intro c hc
@@ -313,7 +314,7 @@ theorem toFac_wfb (m : Nat) (o : Out) (hn : o.n ≠ 0) (h : WfOut m o) : wfb (to
       rw [offs_succ 0 _ (o.xsup[s]! + c) (by rw [hwl]; exact hcn), Nat.add_sub_cancel_left, widths_get o _ hcn, h.sup s hs c hc]
   case c18 =>
     intro j hj
-    rw [h.ucolRows_toFac j hj]
+    rw [h.ucolRows_toFac m j hj]
     exact ⟨h.uabove j hj, Or.inr (nodup_complete _ (h.unodup j hj))⟩
   case c19 => rfl
   case c20 => rfl
@@ -324,17 +325,18 @@ theorem toFac_wfb (m : Nat) (o : Out) (hn : o.n ≠ 0) (h : WfOut m o) : wfb (to
 theorem symbNaive_n (n maxsuper : Nat) (cols : Nat → List Nat) (relaxEnd : Nat → Option Nat) :
     (symbNaive n maxsuper cols relaxEnd).n = n := rfl
 
-theorem symbNaive_wfOut (m n maxsuper : Nat) (cols : Nat → List Nat) (relaxEnd : Nat → Option Nat) (hnm : n ≤ m)
-    (hcols : ∀ j < n, ∀ r ∈ cols j, r < m) : WfOut m (symbNaive n maxsuper cols relaxEnd) := by
+/-- for EVERY input the predicted lists satisfy the clauses of C03 (only "rows `< m`" needs the input's
+rows to be `< m`) -/
+theorem symbNaive_wfOut (n maxsuper : Nat) (cols : Nat → List Nat) (relaxEnd : Nat → Option Nat) :
+    WfOut (symbNaive n maxsuper cols relaxEnd) := by
   obtain ⟨p1, p2, p3, p4, p5, p6, p7⟩ := symbNaive_partition_list n maxsuper cols relaxEnd
   have hr := symbNaive_rows_list n maxsuper cols relaxEnd
-  have hlt := symbNaive_rows_lt m n maxsuper cols relaxEnd hnm hcols
   have hu := symbNaive_ucols_list n maxsuper cols relaxEnd
   exact {
     xlen := p1, slen := p2, ulen := p3, x0 := p4, xn := p5, xlt := p6, sup := p7
     rlen := fun s hs => (hr s hs).1
     lead := fun s hs => (hr s hs).2.1
-    below := fun s hs r hrm => ⟨(hr s hs).2.2.1 r hrm, hlt s hs r (List.mem_of_mem_drop hrm)⟩
+    below := fun s hs => (hr s hs).2.2.1
     rnodup := fun s hs => (hr s hs).2.2.2
     uabove := fun j hj => (hu j hj).1
     unodup := fun j hj => ((hu j hj).2).imp (fun hab => Nat.ne_of_lt hab) }
@@ -347,6 +349,7 @@ theorem symbNaive_wfb (m n maxsuper : Nat) (cols : Nat → List Nat) (relaxEnd :
   by_cases hn : n = 0
   · subst hn
     simp [wfb, toFac_n, symbNaive_n]
-  · exact toFac_wfb m _ (by rw [symbNaive_n]; exact hn) (symbNaive_wfOut m n maxsuper cols relaxEnd hnm hcols)
+  · exact toFac_wfb m _ (by rw [symbNaive_n]; exact hn) (symbNaive_wfOut n maxsuper cols relaxEnd)
+      (symbNaive_rows_lt m n maxsuper cols relaxEnd hnm hcols)
 
 end Slu.Symb
